@@ -2,7 +2,7 @@
    Statements only; proofs in proofs/P_Sun.v (and lib/Atan2.v).
    gen_* are regenerated from /repo/pyorbital/astronomy.py on every run:
    d = days since J2000.0 (2000-01-01T12:00 UTC), lon/lat in degrees.
-   "1950-2050" is |d / 36525| <= 1/2.  Spec: spec/Spec_Sun.v (Almanac formulas, rationals). *)
+   "1950-2050" is -1/2 <= d / 36525 <= 51/100: 1950-01-01T00:00 .. 2051-01-01T06:00 UTC.  Spec: spec/Spec_Sun.v (Almanac formulas, rationals). *)
 From Coq Require Import Reals ZArith Lra.
 From PyOrb.lib Require Import PyReal Atan2.
 From PyOrb.spec Require Import Spec_Sun Spec_Time.
@@ -12,13 +12,13 @@ Open Scope R_scope.
 
 (* 1. ecliptic longitude (radians, neither side reduced mod 2 PI) within 0.0115 deg of the
       Almanac's lambda = L + 1.915 sin g + 0.020 sin 2g *)
-Theorem C06_ecliptic_longitude : forall d, -1 / 2 <= d / 36525 <= 1 / 2 ->
+Theorem C06_ecliptic_longitude : forall d, -1 / 2 <= d / 36525 <= 51 / 100 ->
   Rabs (gen_sun_ecliptic_longitude d - deg2rad (lambda_AA d)) <= deg2rad (115 / 10000).
 Proof. exact ecliptic_longitude_AA. Qed.
 Print Assumptions C06_ecliptic_longitude.
 
 (* 3. sun-earth distance factor within 0.0015 AU of the Almanac's R *)
-Theorem C06_distance : forall d, -1 / 2 <= d / 36525 <= 1 / 2 ->
+Theorem C06_distance : forall d, -1 / 2 <= d / 36525 <= 51 / 100 ->
   Rabs (gen_sun_earth_distance_correction d - R_AA d) <= 15 / 10000.
 Proof. exact distance_AA. Qed.
 Print Assumptions C06_distance.
@@ -31,7 +31,7 @@ Print Assumptions C06_distance.
    2 atan2 (y, x + r) is atan2 (y, x) — except at the exact instant cos l = -1 (sun on the
    negative x axis, true RA = PI) where the half-angle form evaluates atan2 (0, 0) = 0.
    (No binary64 longitude has sin l = 0 besides l = 0, so that instant is not representable.) *)
-Theorem C06_radec_are_spherical : forall d, -1 / 2 <= d / 36525 <= 1 / 2 ->
+Theorem C06_radec_are_spherical : forall d, -1 / 2 <= d / 36525 <= 51 / 100 ->
   exists eps : R,
     Rabs (eps - deg2rad (eps_AA d)) <= deg2rad (12 / 10000) /\
     let lam := gen_sun_ecliptic_longitude d in
@@ -41,7 +41,7 @@ Theorem C06_radec_are_spherical : forall d, -1 / 2 <= d / 36525 <= 1 / 2 ->
 Proof. exact radec_are_spherical. Qed.
 Print Assumptions C06_radec_are_spherical.
 
-Theorem C06_obliquity : forall d, -1 / 2 <= d / 36525 <= 1 / 2 ->
+Theorem C06_obliquity : forall d, -1 / 2 <= d / 36525 <= 51 / 100 ->
   exists eps : R,
     Rabs (eps - deg2rad (eps_AA d)) <= deg2rad (2 / 1000) /\
     gen_sun_dec d = asin (sin eps * sin (gen_sun_ecliptic_longitude d)).
@@ -49,7 +49,7 @@ Proof. exact obliquity_AA. Qed.
 Print Assumptions C06_obliquity.
 
 (* the sun's unit vector built from the code's (ra, dec) is the ecliptic point (l, eps) *)
-Theorem C06_sun_vector : forall d, -1 / 2 <= d / 36525 <= 1 / 2 ->
+Theorem C06_sun_vector : forall d, -1 / 2 <= d / 36525 <= 51 / 100 ->
   cos (gen_sun_ecliptic_longitude d) <> -1 ->
   exists eps : R,
     Rabs (eps - deg2rad (eps_AA d)) <= deg2rad (12 / 10000) /\
@@ -61,7 +61,7 @@ Print Assumptions C06_sun_vector.
 
 (* 8 (Tier 2). chord between the code's sun direction and the Almanac's (alpha, delta) direction
    is at most 2.3e-4 (an angle of 0.0132 deg) over the whole century *)
-Theorem C06_sun_direction : forall d, -1 / 2 <= d / 36525 <= 1 / 2 ->
+Theorem C06_sun_direction : forall d, -1 / 2 <= d / 36525 <= 51 / 100 ->
   cos (gen_sun_ecliptic_longitude d) <> -1 ->
   let ra := gen_sun_ra d in let dec := gen_sun_dec d in
   let l' := deg2rad (lambda_AA d) in let e' := deg2rad (eps_AA d) in
@@ -73,7 +73,7 @@ Print Assumptions C06_sun_direction.
 (* ... and the Almanac's (alpha, delta) direction is that ecliptic point, for every day *)
 Theorem C06_almanac_vector : forall n,
   let l' := deg2rad (lambda_AA n) in let e' := deg2rad (eps_AA n) in
-  -1 / 2 <= n / 36525 <= 1 / 2 ->
+  -1 / 2 <= n / 36525 <= 51 / 100 ->
   sph_x (alpha_AA n) (delta_AA n) = ecl_x l' e' /\
   sph_y (alpha_AA n) (delta_AA n) = ecl_y l' e' /\
   sph_z (alpha_AA n) (delta_AA n) = ecl_z l' e'.
@@ -91,7 +91,7 @@ Proof. exact coszen_is_dot. Qed.
 Print Assumptions C06_coszen_is_dot.
 
 (* hence within 2.31e-4 of the Almanac sun seen from the same place with IAU-82 sidereal time *)
-Theorem C06_coszen_close : forall d lon lat, -1 / 2 <= d / 36525 <= 1 / 2 ->
+Theorem C06_coszen_close : forall d lon lat, -1 / 2 <= d / 36525 <= 51 / 100 ->
   cos (gen_sun_ecliptic_longitude d) <> -1 ->
   let l' := deg2rad (lambda_AA d) in let e' := deg2rad (eps_AA d) in
   let th' := gmst82_rad d + deg2rad lon in let phi := deg2rad lat in
@@ -121,7 +121,7 @@ Print Assumptions C06_consistency.
 
 (* azimuth = atan2 (east component, north component) of the sun direction: clockwise from
    north, in (-PI, PI] *)
-Theorem C06_azimuth_clockwise_from_north : forall d lon lat, -1 / 2 <= d / 36525 <= 1 / 2 ->
+Theorem C06_azimuth_clockwise_from_north : forall d lon lat, -1 / 2 <= d / 36525 <= 51 / 100 ->
   let ra := gen_sun_ra d in let dec := gen_sun_dec d in
   let th := gen_gmst d + deg2rad lon in let phi := deg2rad lat in
   gen_sun_az d lon lat
@@ -146,12 +146,12 @@ Print Assumptions C06_subsolar.
 
 (* the instant excluded above exists (autumn equinox of the model, September 2024):
    a real-number artefact of the half-angle formula *)
-Theorem C06_ra_singular_instant : exists d, -1 / 2 <= d / 36525 <= 1 / 2 /\
+Theorem C06_ra_singular_instant : exists d, -1 / 2 <= d / 36525 <= 51 / 100 /\
   cos (gen_sun_ecliptic_longitude d) = -1 /\ gen_sun_ra d = 0.
 Proof. exact ra_singular_instant. Qed.
 Print Assumptions C06_ra_singular_instant.
 
 (* non-vacuity: 2024-08-22T18:00 UTC (d = 9000.25) is inside every hypothesis *)
 Example C06_inhabited :
-  -1 / 2 <= 900025 / 100 / 36525 <= 1 / 2 /\ cos (gen_sun_ecliptic_longitude (900025 / 100)) <> -1.
+  -1 / 2 <= 900025 / 100 / 36525 <= 51 / 100 /\ cos (gen_sun_ecliptic_longitude (900025 / 100)) <> -1.
 Proof. exact inhabited. Qed.
